@@ -80,13 +80,15 @@ KeysOK(e) ==
        /\ {<<k[1], k[2], VerOf(k[3])>> : k \in Rng(e.hist)} = HistKeys
        /\ {<<k[1], k[2], k[3]>> : k \in Rng(e.dedup)} = DOMAIN dedup
 \* one observation = the key spaces read back from the engine + the reads of every block version
+\* (the checks are written as  <boolean expression> = TRUE  so that TLC evaluates them as one state predicate instead
+\*  of enumerating the true disjuncts of every read as separate - identical - successor states)
 TObs == /\ Ev.e = "Obs"
-        /\ KeysOK(Ev)
-        /\ \A i \in 1..Len(Ev.reads) : ReadOK(Ev.reads[i])
+        /\ KeysOK(Ev) = TRUE
+        /\ (\A i \in 1..Len(Ev.reads) : ReadOK(Ev.reads[i])) = TRUE
         /\ UNCHANGED vars
 \* the same, one read / the key spaces per event (used to pinpoint the offending read of a rejected observation)
-TRead == Ev.e = "Read" /\ ReadOK(Ev) /\ UNCHANGED vars
-TKeys == Ev.e = "Keys" /\ KeysOK(Ev) /\ UNCHANGED vars
+TRead == Ev.e = "Read" /\ ReadOK(Ev) = TRUE /\ UNCHANGED vars
+TKeys == Ev.e = "Keys" /\ KeysOK(Ev) = TRUE /\ UNCHANGED vars
 
 TNext == /\ l <= Len(Trace)
          /\ l' = l + 1
